@@ -8,7 +8,55 @@ from .. import pipeline as pl
 THEOREMS = ["C07.accumulator_exact", "C07.bias_scale_necessary", "C07.dot_perturbation", "C17.dq_q_rounded", "C17.zp_in_range", "C04.bias_params", "C03.xfs_srq"]
 
 
+def requant_chain_case(rng):
+    """a -> (RESHAPE | TRANSPOSE) -> r ; CONCATENATION([r, b]) (-> optional TANH): the integer-copying producer keeps a's scale, the
+    concatenation needs every operand at ITS output scale, so r must be requantized. Magnitudes down to 1e-4 (16-bit scales ~1e-9)."""
+    import numpy as np
+    from ..gen_models import G, BO, TT, OPT, s as sch
+    g = G()
+    g.subgraph()
+    n = rng.choice([2, 3, 4])
+    a = g.tensor("a", [1, 2 * n])
+    if rng.random() < 0.6:
+        sh = g.tensor("shape", [2], TT.INT32, data=np.array([2, n], dtype=np.int32))
+        r = g.tensor("r", [2, n])
+        ro = sch.ReshapeOptionsT()
+        ro.newShape = [2, n]
+        g.op(BO.RESHAPE, [a, sh], [r], OPT.ReshapeOptions, ro)
+        kinds = ["RESHAPE"]
+        rshape = [2, n]
+    else:
+        perm = g.tensor("perm", [2], TT.INT32, data=np.array([1, 0], dtype=np.int32))
+        r = g.tensor("r", [2 * n, 1])
+        g.op(BO.TRANSPOSE, [a, perm], [r], OPT.TransposeOptions, sch.TransposeOptionsT())
+        kinds = ["TRANSPOSE"]
+        rshape = [2 * n, 1]
+    b = g.tensor("b", rshape)
+    c = g.tensor("c", [2 * rshape[0], rshape[1]])
+    co = sch.ConcatenationOptionsT()
+    co.axis = 0
+    ins = [r, b] if rng.random() < 0.5 else [b, r]
+    g.op(BO.CONCATENATION, ins, [c], OPT.ConcatenationOptions, co)
+    kinds.append("CONCATENATION")
+    outs = [c]
+    if rng.random() < 0.3:
+        outs.append(r)
+    g.io([a, b], outs, "serving_default")
+    mb = g.bytes()
+    base = rng.choice([1.2e-4, 1.2e-4, 3e-4, 1.0])
+    k = rng.choice([2.0, 3.3, 5.0])
+    rs = np.random.RandomState(rng.randrange(2 ** 31))
+    data = {"serving_default": [{"in0": rs.uniform(-base, base, size=(1, 2 * n)).astype(np.float32),
+                                 "in1": rs.uniform(-k * base, k * base, size=tuple(rshape)).astype(np.float32)}]}
+    cfg = pl.UNIFORM[rng.choice(["a16w8", "a16w8", "a8w8"])]
+    cmds = [{"k": "add", "regex": ".*", "operation": "*", "cfg": cfg, "alg": "min_max_uniform_quantize"}]
+    info = {"tags": {"requant_chain"}, "subgraphs": [{"sig": "serving_default", "int_inputs": [], "ops": kinds}]}
+    return fp.Case(mb, info, cmds=cmds, data=data, desc=[("requant-chain", cfg["act"]["bits"], base, k)])
+
+
 def gen(rng, i):
+    if i % 11 == 3:
+        return requant_chain_case(rng)
     if i % 11 == 7:
         # operators that copy integers (same scale in and out) feeding a CONCATENATION of operands with different ranges, 16-bit
         # activations, small magnitudes: every operand must be requantized to the output's scale
